@@ -186,7 +186,30 @@ def h_reverse():
     return Harness('C04.RangeCon2Slack.ReverseBasisLowUpp', 'C04', parts, enforce='ReverseBasisLowUpp')
 
 
+_drv = [None]
+
+
+def make_replay(which):
+    def replay(lead, inputs, obs):
+        """native check of the real ValueNode::SetNum over permutations and of a conversion graph built from the real ValuePresolver,
+        CopyLink and RangeLinCon2Slack (replay/c04_replay.cc)"""
+        import subprocess
+        from vp import native
+        if _drv[0] is None:
+            _drv[0] = native.build_driver('c04_replay.cc', 'c04_replay', native.MP_SOURCES, ['-O0'])[0]
+        p = subprocess.run([_drv[0], which], capture_output=True, text=True, timeout=300)
+        return p.returncode == 10, (p.stdout + p.stderr)[-2500:], _drv[0] + ' ' + which
+    return replay
+
+
 def harnesses(tier, seed):
+    hs = _harnesses(tier, seed)
+    for h in hs:
+        h.replay = make_replay('setnum' if 'SetNum' in h.name else 'graph')
+    return hs
+
+
+def _harnesses(tier, seed):
     hs = [h_setnum('int'), h_setnum('double'), h_setnum_order('int'), h_setnum_order('double'), h_reverse()]
     hs += [h_entry(n) for n in ENTRIES]
     return hs
